@@ -580,6 +580,13 @@ fn parse_frame(
     ))
 }
 
+/// Parses one frame that starts at byte 0 of `d` (for frames built outside a stream).
+pub fn parse_single_frame(d: &[u8], info: &InfoFacts) -> Result<(FrameFacts, Vec<Vec<i64>>, Vec<String>), String> {
+    let mut issues = Vec::new();
+    let (ff, chans) = parse_frame(d, 0, info, &mut issues)?;
+    Ok((ff, chans, issues))
+}
+
 /// Parses and decodes a whole stream.
 pub fn parse(d: &[u8]) -> Result<StreamFacts, String> {
     let mut issues = Vec::new();
